@@ -33,6 +33,7 @@ import (
 
 	"github.com/koordinator-sh/koordinator/apis/scheduling/v1alpha1"
 	deschedulerconfig "github.com/koordinator-sh/koordinator/pkg/descheduler/apis/config"
+	"github.com/koordinator-sh/koordinator/pkg/descheduler/fieldindex"
 	"github.com/koordinator-sh/koordinator/pkg/descheduler/framework"
 	"github.com/koordinator-sh/koordinator/pkg/descheduler/utils/sorter"
 	koordutil "github.com/koordinator-sh/koordinator/pkg/util"
@@ -40,7 +41,7 @@ import (
 
 // C16 stream arbitration: the real arbitratorImpl (doOnceArbitrate, Filter, the event handler)
 // with the real filter built by filter.initFilters, the four real sort functions of New(), on the
-// controller-runtime fake client behind the package's own field-index wrapper. Only the
+// controller-runtime fake client with the five production field indexes registered. Only the
 // controller finder (workload -> pods, replicas) and the framework handle are harness fakes.
 //
 // input :  maxGlobal maxNode maxNs mmKind mmVal muKind muVal skipExpected
@@ -194,8 +195,47 @@ func vtC16ArbExec(in []int64) []int64 {
 	scheme := runtime.NewScheme()
 	_ = v1alpha1.AddToScheme(scheme)
 	_ = clientgoscheme.AddToScheme(scheme)
-	base := fake.NewClientBuilder().WithScheme(scheme).WithStatusSubresource(&v1alpha1.PodMigrationJob{}).Build()
-	fc := &vtC16FailClient{Client: newFieldIndexFakeClient(base), fail: map[string]bool{}}
+	podRefOf := func(obj client.Object) *corev1.ObjectReference {
+		if job, ok := obj.(*v1alpha1.PodMigrationJob); ok {
+			return job.Spec.PodRef
+		}
+		return nil
+	}
+	// the five field indexes of pkg/descheduler/fieldindex (registered on the manager's cache in production)
+	base := fake.NewClientBuilder().WithScheme(scheme).WithStatusSubresource(&v1alpha1.PodMigrationJob{}).
+		WithIndex(&corev1.Pod{}, fieldindex.IndexPodByNodeName, func(obj client.Object) []string {
+			if pod, ok := obj.(*corev1.Pod); ok && pod.Spec.NodeName != "" {
+				return []string{pod.Spec.NodeName}
+			}
+			return []string{}
+		}).
+		WithIndex(&corev1.Pod{}, fieldindex.IndexPodByOwnerRefUID, func(obj client.Object) []string {
+			owners := []string{}
+			for _, ref := range obj.GetOwnerReferences() {
+				owners = append(owners, string(ref.UID))
+			}
+			return owners
+		}).
+		WithIndex(&v1alpha1.PodMigrationJob{}, fieldindex.IndexJobByPodUID, func(obj client.Object) []string {
+			if ref := podRefOf(obj); ref != nil {
+				return []string{string(ref.UID)}
+			}
+			return []string{}
+		}).
+		WithIndex(&v1alpha1.PodMigrationJob{}, fieldindex.IndexJobPodNamespacedName, func(obj client.Object) []string {
+			if ref := podRefOf(obj); ref != nil {
+				return []string{fmt.Sprintf("%s/%s", ref.Namespace, ref.Name)}
+			}
+			return []string{}
+		}).
+		WithIndex(&v1alpha1.PodMigrationJob{}, fieldindex.IndexJobByPodNamespace, func(obj client.Object) []string {
+			if ref := podRefOf(obj); ref != nil {
+				return []string{ref.Namespace}
+			}
+			return []string{}
+		}).
+		Build()
+	fc := &vtC16FailClient{Client: base, fail: map[string]bool{}}
 	ctx := context.TODO()
 
 	podName := func(i int) string { return fmt.Sprintf("p%02d", i) }
